@@ -219,6 +219,18 @@ def oracle(ck: Check, tier, deep):
             ck.violation(dict(sig, clause="intensity"), rep, f"total intensity changed by {tot:.3g} (relative)")
         if dev > (1e-10 if order == 1 else 2e-2):
             ck.violation(dict(sig, clause="centroid"), rep, f"centroid off by {dev:.3g} px")
+        # a negative (from-the-end) origin names the same point as origin + size: identical output, every crop and order
+        oneg = tuple(v - n if rng.random() < 0.7 else v for v, n in zip(o, (r, c)))
+        ck.count(("S.frac-neg", crop, order, oneg[0] < 0, oneg[1] < 0), suite="S.frac")
+        try:
+            out_neg = set_center(im, oneg, crop=crop, order=order)
+        except Exception as e:
+            ck.violation(dict(sig, clause="exception"), dict(rep, origin=list(oneg)), f"{type(e).__name__}: {e}")
+            continue
+        if out_neg.shape != out.shape or np.abs(out_neg - out).max() > 1e-12:
+            ck.violation(dict(sig, clause="negative-origin-wrap"), dict(rep, origin=list(oneg), equivalent_origin=list(o)),
+                         f"origin {oneg} and the same point counted from the start {o} give different results "
+                         f"({'shapes %s vs %s' % (out_neg.shape, out.shape) if out_neg.shape != out.shape else 'max diff %.3g' % np.abs(out_neg - out).max()})")
     # center_image flags
     for r, c, odd, sq in itertools.product(range(1, 13), range(1, 13), (True, False), (True, False)):
         if odd and c == 1 and False:
